@@ -56,8 +56,9 @@ var trUnits = []*trUnit{
 		"Printer.printPrice", "Printer.printAssertion", "Printer.printTransaction", "Printer.PrintDirective", "Printer.PrintDirectiveLn",
 		"Printer.UpdatePadding", "Printer.Initialize"}},
 	{pkg: "lib/journal", mod: "Journal", funcs: []string{"ComputePrices", "Valuate", "Filter", "CloseAccounts", "CompareDays", "New", "Builder.Day", "Builder.Build",
-		"Builder.Add", "Builder.Period", "Query.Into"},
-		agree: map[string]string{"ComputePrices": "Process", "Valuate": "Process", "Filter": "Process", "CloseAccounts": "Process", "Query.Into": "Query"}},
+		"Builder.Add", "Builder.Period", "Query.Into", "Sort", "Print"},
+		agree: map[string]string{"ComputePrices": "Process", "Valuate": "Process", "Filter": "Process", "CloseAccounts": "Process", "Query.Into": "Query",
+			"Sort": "JPrinter2", "Print": "JPrinter2"}},
 	{pkg: "lib/reports/balance", mod: "Report", funcs: []string{"NewReport", "Report.Insert", "Report.SortAlpha", "Report.SortWeighted", "Report.Totals"}},
 }
 
@@ -222,7 +223,14 @@ func (t *trTranslator) mutParams(f *trFunc) {
 		assigned[o] = true
 	}
 	f.mut, f.mutObjs = nil, nil
+	mv := t.writerMoveOf(f)
 	for i, p := range params {
+		if mv != nil && mv.param == p {
+			// an io.Writer parameter moved into a local struct: the final text of the sink is returned (trans_units_jprinter.go)
+			f.mut = append(f.mut, i)
+			f.mutObjs = append(f.mutObjs, p)
+			continue
+		}
 		switch p.Type().Underlying().(type) {
 		case *types.Pointer, *types.Map:
 			if assigned[p] {
@@ -258,6 +266,7 @@ func (t *trTranslator) translateFunc(f *trFunc) {
 		return
 	}
 	c := &trCtx{t: t, fn: f, names: map[types.Object]string{}, used: map[string]bool{"fuel": true}}
+	c.writerMove = t.writerMoveOf(f)
 	sig := f.obj.Type().(*types.Signature)
 	if sig.Variadic() {
 		trFail(f.decl.Pos(), "variadic function is outside the subset")
